@@ -67,6 +67,7 @@ def discover(crate):
             # OPTIONAL: a counterexample finder on code CBMC may not finish on; a timeout is
             # reported as "not finished", not as undecided
             "optional": "OPTIONAL" in attrs,
+            "timeout": int(re.search(r"TIMEOUT=(\d+)", attrs).group(1)) if re.search(r"TIMEOUT=(\d+)", attrs) else None,
             "pinned_solver": (re.search(r"kani::solver\((\w+)\)", attrs) or [None, None])[1],
             "body": body,
             "stubs": re.findall(r"kani::stub(?:_verified)?\(([^)]*)\)", attrs),
@@ -253,10 +254,14 @@ def classify(name, h, res):
     return r
 
 
-def run_many(crate, names, harnesses, timeout, jobs=14, solver=None):
+def run_many(crate, names, harnesses, timeout, jobs=14, solver=None, quick=False):
     results = {}
     with concurrent.futures.ThreadPoolExecutor(max_workers=jobs) as ex:
-        futs = {ex.submit(run_harness, crate, n, timeout, None, solver): n for n in names}
+        # a harness may carry its own (shorter) budget for the quick tier: `// ... TIMEOUT=<s>`
+        def budget(n):
+            t = harnesses[n].get("timeout")
+            return min(timeout, t) if (quick and t) else timeout
+        futs = {ex.submit(run_harness, crate, n, budget(n), None, solver): n for n in names}
         for f in concurrent.futures.as_completed(futs):
             n = futs[f]
             res = f.result()
